@@ -3,9 +3,11 @@
 //! distributor's `CurrentEpoch` query), a fee collector address and a mock pair for the helper path
 //! (takes the deposited assets, hands out `lp = a0 + a1` LP tokens).
 //!
-//! Cast: alice, bob, carol (users), dave (flow creator), owner (factory owner); every one of them may
-//! send any op. Assets: 0 = LP (native `ulp` or cw20), 1 = `uwhale`, 2 = `ureward` (native),
-//! 3 = cw20 A, 4 = cw20 B. The flow-creation fee asset is any of them (init line).
+//! Cast: alice, bob, carol (users), dave (flow creator), owner (factory owner), mallory (the account of the
+//! hostile pool token, a contract); every one of them may send any op. Assets: 0 = LP (native `ulp` or cw20),
+//! 1 = `uwhale`, 2 = `ureward` (native), 3 = cw20 A, 4 = cw20 B. The flow-creation fee asset is any of them
+//! (init line). cw20 A -- the cw20 asset of the helper's pair -- is the HOSTILE token of `mod hostile`: plain
+//! cw20-base until it is armed by a `reenter` line.
 //! Assets 5..=9 are the same five NAMES in the WRONG KIND (`a + 5` = look-alike of `a`): for a cw20 asset
 //! the native denom that spells the token's address (every actor holds coins of that denom, so it is a
 //! real, distinct asset: flows can be opened in it), for a native asset the cw20 `Token { contract_addr }`
@@ -16,6 +18,16 @@
 //! the trailing `asset:amount` tokens are what the sender *offers*: a native asset is attached as
 //! funds, a cw20 asset becomes the sender's allowance to the called contract (set to exactly that
 //! value before the op; every other cw20 allowance of the sender to that contract is set to 0).
+//!
+//! Re-entrant transaction:
+//!   `<epoch> <time_s> <sender> reenter <t1|t2|t3|t4> <plain|catch> <inner op> <args…> [offers] -- <outer op> <args…> [offers]`
+//! the hostile pool token is armed, then `<outer op>` is sent by `<sender>` with the offers after `--`; when the
+//! armed trigger is hit (t1: inside the helper's `TransferFrom` depositor -> helper, t2: inside the pair's
+//! `TransferFrom` helper -> pair, t3 / t4: a `Transfer` / `Send` by or to the helper -- never on this path),
+//! mallory sends `<inner op>` with its own offers from inside the token's handler, ONCE, plainly (its failure
+//! fails the transaction) or as a sub-message it catches. Neither op may be a `reenter` itself. The observation
+//! line of a `reenter` op ends in `fired=0|1|2|-` (not triggered / nested message went through / refused and
+//! caught / transaction failed). The token is disarmed after the transaction whatever happened.
 use crate::common::*;
 use cosmwasm_schema::cw_serde;
 use cosmwasm_std::{
@@ -42,9 +54,19 @@ fn twin(a: usize) -> usize {
         a - NB
     }
 }
-const ACTORS: [&str; 5] = ["alice", "bob", "carol", "dave", "owner"];
-/// accounts whose balances are observed: index 0 = incentive contract, 1..=5 actors, 6 collector, 7 helper, 8 pair
-const ACCTS: [&str; 9] = ["inc", "alice", "bob", "carol", "dave", "owner", "collector", "helper", "pair"];
+/// senders: three users, the flow creator, the factory owner, and `mallory` -- the account of the hostile pool
+/// token (a contract that sends what it is told to from its own address: `hostile::puppet`)
+const ACTORS: [&str; 6] = ["alice", "bob", "carol", "dave", "owner", "mallory"];
+/// number of actors (account indices 1..=NACT)
+const NACT: usize = 6;
+/// accounts whose balances are observed: index 0 = incentive contract, 1..=6 actors, 7 collector, 8 helper, 9 pair
+const ACCTS: [&str; 10] = ["inc", "alice", "bob", "carol", "dave", "owner", "mallory", "collector", "helper", "pair"];
+const MALLORY: usize = 6;
+const COLLECTOR: usize = 7;
+const HELPER: usize = 8;
+const PAIR: usize = 9;
+/// number of observed accounts
+const NACC: usize = 10;
 const NATIVE_DENOM: [&str; 3] = ["ulp", "uwhale", "ureward"];
 const BAL0: u128 = 1u128 << 125;
 const MIN_D: u64 = 86_400;
@@ -164,6 +186,168 @@ fn pair_contract() -> Box<dyn cw_multi_test::Contract<Empty>> {
             }
         },
     ))
+}
+
+/// THE HOSTILE POOL TOKEN and its account.  `token()` is a cw20 token that IS cw20-base (instantiate, query and every
+/// execute variant go through `cw20_base::contract`) and, when ARMED (`sudo`, the harness's own entry point; a real
+/// one would carry an execute variant of its own), sends ONE message of its own choosing from inside the next
+/// `TransferFrom` / `Transfer` / `Send` in which the frontend helper takes part:
+///   trigger 1: `TransferFrom { owner, recipient = helper }`  (the helper pulls a depositor's tokens),
+///   trigger 2: `TransferFrom { owner = helper, .. }`         (the pair pulls the tokens from the helper),
+///   trigger 3: `Transfer` sent by / to the helper,   trigger 4: `Send` by / to the helper
+/// (3 and 4 never happen on the helper's path: the helper only ever `TransferFrom`s and `IncreaseAllowance`s).
+/// The ordinary transfer is executed first, the nested message runs right after it, before the caller's next
+/// message -- i.e. BETWEEN the helper's own messages of a `Deposit`.  The message goes through `puppet()`
+/// (`mallory`): a contract holding funds and allowances that sets its cw20 allowances to what it is told and then
+/// sends the one message from its own address, plainly (a failure fails the whole transaction) or as a
+/// sub-message it catches (`reply_on: Always`; it records what became of it).  Mallory's ordinary operations are
+/// sent by the harness with the puppet's address as the sender.
+mod hostile {
+    use cosmwasm_std::{
+        to_json_binary, Binary, CosmosMsg, Deps, DepsMut, Empty, Env, MessageInfo, Reply, Response, StdError, StdResult,
+        SubMsg, Uint128, WasmMsg,
+    };
+    use cw_multi_test::{Contract, ContractWrapper};
+    use cw_storage_plus::Item;
+    use serde::{Deserialize, Serialize};
+
+    #[derive(Serialize, Deserialize, Clone, Debug)]
+    #[serde(rename_all = "snake_case")]
+    pub enum TokenSudo {
+        Arm { trigger: u8, helper: String, puppet: String, inner: Binary },
+        Disarm {},
+    }
+    #[derive(Serialize, Deserialize, Clone, Debug)]
+    pub struct Armed {
+        pub trigger: u8,
+        pub helper: String,
+        pub puppet: String,
+        pub inner: Binary,
+    }
+    pub const ARMED: Item<Armed> = Item::new("hostile_armed");
+    /// raw key `hostile_fired`: `true` once the armed trigger was hit (reset by `Arm`)
+    pub const FIRED: Item<bool> = Item::new("hostile_fired");
+
+    fn token_sudo(deps: DepsMut, _env: Env, msg: TokenSudo) -> Result<Response, cw20_base::ContractError> {
+        match msg {
+            TokenSudo::Arm { trigger, helper, puppet, inner } => {
+                ARMED.save(deps.storage, &Armed { trigger, helper, puppet, inner })?;
+                FIRED.save(deps.storage, &false)?;
+            }
+            TokenSudo::Disarm {} => ARMED.remove(deps.storage),
+        }
+        Ok(Response::new())
+    }
+
+    fn token_execute(
+        mut deps: DepsMut,
+        env: Env,
+        info: MessageInfo,
+        msg: cw20::Cw20ExecuteMsg,
+    ) -> Result<Response, cw20_base::ContractError> {
+        use cw20::Cw20ExecuteMsg as M;
+        let hit = match ARMED.may_load(deps.storage)? {
+            None => None,
+            Some(a) => {
+                let h = a.helper.as_str();
+                let m = match (&msg, a.trigger) {
+                    (M::TransferFrom { owner, recipient, .. }, 1) => recipient == h && owner != h,
+                    (M::TransferFrom { owner, .. }, 2) => owner == h,
+                    (M::Transfer { recipient, .. }, 3) => info.sender.as_str() == h || recipient == h,
+                    (M::Send { contract, .. }, 4) => info.sender.as_str() == h || contract == h,
+                    _ => false,
+                };
+                if m {
+                    Some(a)
+                } else {
+                    None
+                }
+            }
+        };
+        // the ordinary cw20-base behaviour first
+        let resp = cw20_base::contract::execute(deps.branch(), env, info, msg)?;
+        match hit {
+            None => Ok(resp),
+            Some(a) => {
+                // one shot
+                ARMED.remove(deps.storage);
+                FIRED.save(deps.storage, &true)?;
+                Ok(resp
+                    .add_attribute("hostile", "fire")
+                    .add_message(WasmMsg::Execute { contract_addr: a.puppet, msg: a.inner, funds: vec![] }))
+            }
+        }
+    }
+
+    pub fn token() -> Box<dyn Contract<Empty>> {
+        Box::new(
+            ContractWrapper::new(token_execute, cw20_base::contract::instantiate, cw20_base::contract::query)
+                .with_sudo(token_sudo),
+        )
+    }
+
+    #[derive(Serialize, Deserialize, Clone, Debug)]
+    #[serde(rename_all = "snake_case")]
+    pub enum PuppetMsg {
+        /// the nested call: bring the puppet's cw20 allowances `(token, spender, wanted)` to exactly the wanted
+        /// values, then send `msg` -- plainly, or as a sub-message whose failure is swallowed
+        Inner { allow: Vec<(String, String, Uint128)>, msg: CosmosMsg, catch: bool },
+        Reset {},
+    }
+    /// raw key `puppet_last`: what became of the last nested message (`null`: none ran to its end)
+    pub const LAST: Item<Option<bool>> = Item::new("puppet_last");
+
+    fn puppet_execute(deps: DepsMut, env: Env, _info: MessageInfo, msg: PuppetMsg) -> StdResult<Response> {
+        match msg {
+            PuppetMsg::Reset {} => {
+                LAST.save(deps.storage, &None)?;
+                Ok(Response::new())
+            }
+            PuppetMsg::Inner { allow, msg, catch } => {
+                let me = env.contract.address.to_string();
+                let mut msgs: Vec<CosmosMsg> = vec![];
+                let exec = |token: &str, m: cw20::Cw20ExecuteMsg| -> StdResult<CosmosMsg> {
+                    Ok(WasmMsg::Execute { contract_addr: token.to_string(), msg: to_json_binary(&m)?, funds: vec![] }.into())
+                };
+                for (token, spender, want) in allow.iter() {
+                    let cur: cw20::AllowanceResponse = deps
+                        .querier
+                        .query_wasm_smart(token.clone(), &cw20::Cw20QueryMsg::Allowance { owner: me.clone(), spender: spender.clone() })?;
+                    let cur = cur.allowance;
+                    if want.is_zero() {
+                        // leave no allowance record at all (as the harness does for an ordinary sender)
+                        msgs.push(exec(token, cw20::Cw20ExecuteMsg::IncreaseAllowance { spender: spender.clone(), amount: Uint128::one(), expires: None })?);
+                        msgs.push(exec(token, cw20::Cw20ExecuteMsg::DecreaseAllowance { spender: spender.clone(), amount: cur + Uint128::one(), expires: None })?);
+                    } else if cur < *want {
+                        msgs.push(exec(token, cw20::Cw20ExecuteMsg::IncreaseAllowance { spender: spender.clone(), amount: *want - cur, expires: None })?);
+                    } else if cur > *want {
+                        msgs.push(exec(token, cw20::Cw20ExecuteMsg::DecreaseAllowance { spender: spender.clone(), amount: cur - *want, expires: None })?);
+                    }
+                }
+                let sub = if catch { SubMsg::reply_always(msg, 1) } else { SubMsg::reply_on_success(msg, 1) };
+                Ok(Response::new().add_messages(msgs).add_submessage(sub))
+            }
+        }
+    }
+
+    fn puppet_reply(deps: DepsMut, _env: Env, r: Reply) -> StdResult<Response> {
+        LAST.save(deps.storage, &Some(matches!(r.result, cosmwasm_std::SubMsgResult::Ok(_))))?;
+        Ok(Response::new().add_attribute("hostile", "inner_done"))
+    }
+
+    pub fn puppet() -> Box<dyn Contract<Empty>> {
+        Box::new(
+            ContractWrapper::new(
+                puppet_execute,
+                |d: DepsMut, _e: Env, _i: MessageInfo, _m: Empty| -> StdResult<Response> {
+                    LAST.save(d.storage, &None)?;
+                    Ok(Response::new())
+                },
+                |_d: Deps, _e: Env, _m: Empty| -> StdResult<Binary> { Err(StdError::generic_err("no queries")) },
+            )
+            .with_reply(puppet_reply),
+        )
+    }
 }
 
 // ------------------------------------------------------------------------------------------------
@@ -381,9 +565,9 @@ impl World {
     }
 
     fn new(cfg: Cfg) -> World {
-        let names: Vec<Addr> = ACCTS.iter().map(|n| Addr::unchecked(*n)).collect();
+        let mut names: Vec<Addr> = ACCTS.iter().map(|n| Addr::unchecked(*n)).collect();
         let mut app = AppBuilder::new().with_bank(BankKeeper::new()).build(|router, _api, storage| {
-            for n in ACTORS.iter() {
+            for n in ACTORS.iter().filter(|n| **n != "mallory") {
                 let mut coins: Vec<Coin> = vec![coin(BAL0, "uwhale"), coin(BAL0, "ureward")];
                 if cfg.lp_native {
                     coins.push(coin(BAL0, "ulp"));
@@ -420,23 +604,36 @@ impl World {
         ));
         let epoch_id = app.store_code(epoch_contract());
         let pair_id = app.store_code(pair_contract());
+        let hostile_id = app.store_code(hostile::token());
+        let puppet_id = app.store_code(hostile::puppet());
 
         let epoch_src =
             app.instantiate_contract(epoch_id, owner.clone(), &EpochInst { id: cfg.e0 }, &[], "epochs", None).unwrap();
         let pair = app.instantiate_contract(pair_id, owner.clone(), &Empty {}, &[], "pair", None).unwrap();
+        // mallory: the hostile pool token's account, funded like every other actor
+        let puppet = app.instantiate_contract(puppet_id, owner.clone(), &Empty {}, &[], "mallory", None).unwrap();
+        names[MALLORY] = puppet.clone();
+        {
+            let mut coins: Vec<Coin> = vec![coin(BAL0, "uwhale"), coin(BAL0, "ureward")];
+            if cfg.lp_native {
+                coins.push(coin(BAL0, "ulp"));
+            }
+            app.init_modules(|router, _api, storage| router.bank.init_balance(storage, &puppet, coins).unwrap());
+        }
         let mut token: [Option<Addr>; NB] = [None, None, None, None, None];
         for a in 0..NB {
             if kind_native(&cfg, a) {
                 continue;
             }
             let mut initial: Vec<cw20::Cw20Coin> =
-                ACTORS.iter().map(|n| cw20::Cw20Coin { address: n.to_string(), amount: BAL0.into() }).collect();
+                (1..=NACT).map(|i| cw20::Cw20Coin { address: names[i].to_string(), amount: BAL0.into() }).collect();
             if a == 0 {
                 initial.push(cw20::Cw20Coin { address: pair.to_string(), amount: BAL0.into() });
             }
             let t = app
                 .instantiate_contract(
-                    cw20_id,
+                    // cw20 A, the cw20 asset of the helper's pair, is the hostile token (plain cw20-base until armed)
+                    if a == 3 { hostile_id } else { cw20_id },
                     owner.clone(),
                     &cw20_base::msg::InstantiateMsg {
                         name: format!("token{a}"),
@@ -456,9 +653,9 @@ impl World {
         // every actor holds coins of the native denoms that spell the cw20 tokens' addresses
         for a in 0..NB {
             if let Some(t) = &token[a] {
-                for n in ACTORS.iter() {
+                for i in 1..=NACT {
                     app.sudo(cw_multi_test::SudoMsg::Bank(cw_multi_test::BankSudo::Mint {
-                        to_address: n.to_string(),
+                        to_address: names[i].to_string(),
                         amount: vec![coin(BAL0, t.to_string())],
                     }))
                     .unwrap();
@@ -539,9 +736,70 @@ impl World {
             )
             .unwrap();
         w.addr[0] = inc;
-        w.addr[7] = helper;
-        w.addr[8] = pair;
+        w.addr[HELPER] = helper;
+        w.addr[PAIR] = pair;
         w
+    }
+
+    /// the contract an op is sent to
+    fn target_of(&self, k: &OpK) -> Addr {
+        match k {
+            OpK::HelperDeposit { .. } => self.addr[HELPER].clone(),
+            _ => self.addr[0].clone(),
+        }
+    }
+
+    /// the native part of what is offered, as the chain hands it over (sorted by denom)
+    fn funds_of(&self, offers: &[(usize, u128)]) -> Vec<Coin> {
+        let mut funds: Vec<Coin> = vec![];
+        for a in 0..NA {
+            let off = offers.iter().find(|o| o.0 == a).map(|o| o.1).unwrap_or(0);
+            if kind_native(&self.cfg, a) && off > 0 {
+                funds.push(coin(off, self.name(a)));
+            }
+        }
+        funds.sort_by(|x, y| x.denom.cmp(&y.denom));
+        funds
+    }
+
+    /// the execute message of a (plain) op
+    fn wasm_exec(&self, k: &OpK, funds: Vec<Coin>) -> WasmMsg {
+        let recv_s = |r: &Option<usize>| r.map(|i| self.addr[i].to_string());
+        let info = |a: usize| self.info(a);
+        let msg: Binary = match k {
+            OpK::OpenPos { amount, dur, recv } => {
+                to_json_binary(&im::ExecuteMsg::OpenPosition { amount: (*amount).into(), unbonding_duration: *dur, receiver: recv_s(recv) })
+            }
+            OpK::ExpandPos { amount, dur, recv } => {
+                to_json_binary(&im::ExecuteMsg::ExpandPosition { amount: (*amount).into(), unbonding_duration: *dur, receiver: recv_s(recv) })
+            }
+            OpK::ClosePos { dur } => to_json_binary(&im::ExecuteMsg::ClosePosition { unbonding_duration: *dur }),
+            OpK::Withdraw => to_json_binary(&im::ExecuteMsg::Withdraw {}),
+            OpK::Claim => to_json_binary(&im::ExecuteMsg::Claim {}),
+            OpK::Snapshot => to_json_binary(&im::ExecuteMsg::TakeGlobalWeightSnapshot {}),
+            OpK::OpenFlow { asset, amount, start, end } => to_json_binary(&im::ExecuteMsg::OpenFlow {
+                start_epoch: *start,
+                end_epoch: *end,
+                curve: None,
+                flow_asset: Asset { info: info(*asset), amount: (*amount).into() },
+                flow_label: None,
+            }),
+            OpK::ExpandFlow { id, asset, amount, end } => to_json_binary(&im::ExecuteMsg::ExpandFlow {
+                flow_identifier: im::FlowIdentifier::Id(*id),
+                end_epoch: *end,
+                flow_asset: Asset { info: info(*asset), amount: (*amount).into() },
+            }),
+            OpK::CloseFlow { id } => to_json_binary(&im::ExecuteMsg::CloseFlow { flow_identifier: im::FlowIdentifier::Id(*id) }),
+            OpK::HelperDeposit { x0, x1, a0, a1, dur } => to_json_binary(&hm::ExecuteMsg::Deposit {
+                pair_address: self.addr[PAIR].to_string(),
+                assets: [Asset { info: info(*x0), amount: (*a0).into() }, Asset { info: info(*x1), amount: (*a1).into() }],
+                slippage_tolerance: None,
+                unbonding_duration: *dur,
+            }),
+            OpK::Reenter { .. } => unreachable!("nested reenter is refused when the line is parsed"),
+        }
+        .unwrap();
+        WasmMsg::Execute { contract_addr: self.target_of(k).to_string(), msg, funds }
     }
 
     fn set_epoch(&mut self, e: u64) {
@@ -625,8 +883,8 @@ impl World {
         let mut pos = vec![];
         let mut share = vec![];
         let mut rewards = vec![];
-        let base = base.filter(|b| b.pos.len() == 5 && b.aw.len() == 5 && b.bal.len() == self.addr.len());
-        for i in 1..=5 {
+        let base = base.filter(|b| b.pos.len() == NACT && b.aw.len() == NACT && b.bal.len() == self.addr.len());
+        for i in 1..=NACT {
             let who = &self.addr[i];
             if base.is_none() {
             let mut k = vec![0u8, 14];
@@ -799,13 +1057,17 @@ enum OpK {
     CloseFlow { id: u64 },
     /// `x0`, `x1`: the asset ids the two deposited assets are NAMED with (1 and 3, or their look-alikes 6 / 8)
     HelperDeposit { x0: usize, x1: usize, a0: u128, a1: u128, dur: u64 },
+    /// `reenter <t1|t2|t3|t4> <plain|catch> <inner op> [offers] -- <outer op> [offers]`: the hostile pool token is
+    /// armed with trigger `trig`; `outer` is then sent by the line's sender (its offers are the line's `offers`);
+    /// when the trigger is hit, mallory sends `inner` with `ioffers` from inside the token's transfer handler
+    Reenter { trig: u8, catch: bool, inner: Box<OpK>, ioffers: Vec<(usize, u128)>, outer: Box<OpK> },
 }
 
 #[derive(Clone, Debug)]
 struct Op {
     epoch: u64,
     time: u64,
-    sender: usize, // index into ACCTS (1..=5)
+    sender: usize, // index into ACCTS (1..=NACT)
     k: OpK,
     offers: Vec<(usize, u128)>,
 }
@@ -828,14 +1090,12 @@ fn opt_actor(s: &str) -> Option<Option<usize>> {
     }
 }
 
-fn parse_op(ws: &[&str]) -> Option<Op> {
-    if ws.len() < 4 {
+/// `<op> <args…> [<asset>:<amount> …]` (no nesting)
+fn parse_body(ws: &[&str]) -> Option<(OpK, Vec<(usize, u128)>)> {
+    if ws.is_empty() {
         return None;
     }
-    let epoch: u64 = ws[0].parse().ok()?;
-    let time: u64 = ws[1].parse().ok()?;
-    let sender = actor_idx(ws[2])?;
-    let nargs = match ws[3] {
+    let nargs = match ws[0] {
         "open_position" | "expand_position" | "helper_deposit" => 3,
         "helper_deposit_as" => 5,
         "close_position" | "close_flow" => 1,
@@ -843,11 +1103,11 @@ fn parse_op(ws: &[&str]) -> Option<Op> {
         "open_flow" | "expand_flow" => 4,
         _ => return None,
     };
-    if ws.len() < 4 + nargs {
+    if ws.len() < 1 + nargs {
         return None;
     }
-    let a = &ws[4..4 + nargs];
-    let k = match ws[3] {
+    let a = &ws[1..1 + nargs];
+    let k = match ws[0] {
         "open_position" => OpK::OpenPos { amount: a[0].parse().ok()?, dur: a[1].parse().ok()?, recv: opt_actor(a[2])? },
         "expand_position" => OpK::ExpandPos { amount: a[0].parse().ok()?, dur: a[1].parse().ok()?, recv: opt_actor(a[2])? },
         "close_position" => OpK::ClosePos { dur: a[0].parse().ok()? },
@@ -880,7 +1140,7 @@ fn parse_op(ws: &[&str]) -> Option<Op> {
         _ => return None,
     };
     let mut offers = vec![];
-    for t in &ws[4 + nargs..] {
+    for t in &ws[1 + nargs..] {
         let (x, y) = t.split_once(':')?;
         let asset: usize = x.parse().ok()?;
         let amt: u128 = y.parse().ok()?;
@@ -889,6 +1149,41 @@ fn parse_op(ws: &[&str]) -> Option<Op> {
         }
         offers.push((asset, amt));
     }
+    Some((k, offers))
+}
+
+fn parse_op(ws: &[&str]) -> Option<Op> {
+    if ws.len() < 4 {
+        return None;
+    }
+    let epoch: u64 = ws[0].parse().ok()?;
+    let time: u64 = ws[1].parse().ok()?;
+    let sender = actor_idx(ws[2])?;
+    if ws[3] == "reenter" {
+        if ws.len() < 8 {
+            return None;
+        }
+        let trig: u8 = match ws[4] {
+            "t1" => 1,
+            "t2" => 2,
+            "t3" => 3,
+            "t4" => 4,
+            _ => return None,
+        };
+        let catch = match ws[5] {
+            "plain" => false,
+            "catch" => true,
+            _ => return None,
+        };
+        let sep = ws.iter().position(|t| *t == "--")?;
+        if sep < 7 || sep + 1 >= ws.len() {
+            return None;
+        }
+        let (inner, ioffers) = parse_body(&ws[6..sep])?;
+        let (outer, offers) = parse_body(&ws[sep + 1..])?;
+        return Some(Op { epoch, time, sender, k: OpK::Reenter { trig, catch, inner: Box::new(inner), ioffers, outer: Box::new(outer) }, offers });
+    }
+    let (k, offers) = parse_body(&ws[3..])?;
     Some(Op { epoch, time, sender, k, offers })
 }
 
@@ -909,7 +1204,9 @@ pub struct Incentive {
     /// scripted scenario: op lines (without the `<epoch> <time>` prefix) emitted next, each with the
     /// number of epochs and seconds to advance BEFORE it (reversed: popped from the end)
     g_script: Vec<(u64, u64, String)>,
-    g_scen_done: [bool; 5],
+    g_scen_done: [bool; 6],
+    /// the line `gen_plain_line` returned last came from a script / a forced continuation
+    g_last_scripted: bool,
 }
 
 fn sum_pos(o: &Obs) -> Option<u128> {
@@ -992,7 +1289,7 @@ impl Incentive {
             });
         }
         // C11 helper keeps nothing
-        mon.check("C11", "helper_keeps_nothing", o.bal[7].iter().all(|x| *x == 0), || format!("helper balances {:?}", o.bal[7]));
+        mon.check("C11", "helper_keeps_nothing", o.bal[HELPER].iter().all(|x| *x == 0), || format!("helper balances {:?}", o.bal[HELPER]));
         // C12 every asset: holdings cover the flows' funded - claimed (plus positions for the LP asset)
         for a in 0..NA {
             let liab = flow_liab(o, a) + if a == 0 { sum_pos(o).unwrap_or(0) } else { 0 };
@@ -1066,33 +1363,59 @@ impl Incentive {
             b.height += 1;
         });
         let sender = w.addr[op.sender].clone();
-        let inc = w.addr[0].clone();
-        let target = match op.k {
-            OpK::HelperDeposit { .. } => w.addr[7].clone(),
-            _ => inc.clone(),
+        // a re-entrant transaction: the op sent by the line's sender is `outer`
+        let (eff_k, hook): (&OpK, Option<(u8, bool, &OpK, &Vec<(usize, u128)>)>) = match &op.k {
+            OpK::Reenter { trig, catch, inner, ioffers, outer } => (outer.as_ref(), Some((*trig, *catch, inner.as_ref(), ioffers))),
+            k => (k, None),
         };
+        if let Some((_, _, inner, ioffers)) = &hook {
+            if ioffers.iter().any(|o| dead(&w.cfg, o.0)) || matches!(inner, OpK::Reenter { .. }) || matches!(eff_k, OpK::Reenter { .. }) {
+                return "bad-op".into();
+            }
+        }
+        let target = w.target_of(eff_k);
         // offers: cw20 -> allowance to the called contract; native -> funds
-        let mut funds: Vec<Coin> = vec![];
         for a in 0..NA {
             let off = op.offers.iter().find(|o| o.0 == a).map(|o| o.1).unwrap_or(0);
-            if kind_native(&w.cfg, a) {
-                if off > 0 {
-                    funds.push(coin(off, w.name(a)));
-                }
-            } else if !dead(&w.cfg, a) {
+            if !kind_native(&w.cfg, a) && !dead(&w.cfg, a) {
                 w.set_allowance(&sender, &target, a, off);
             }
         }
-        // the chain hands the coins over sorted by denom
-        funds.sort_by(|x, y| x.denom.cmp(&y.denom));
+        let funds = w.funds_of(&op.offers);
+        // arm the hostile pool token: what mallory sends from inside the transfer, and its allowances
+        if let Some((trig, catch, inner, ioffers)) = &hook {
+            let itarget = w.target_of(inner);
+            let allow: Vec<(String, String, Uint128)> = (0..NA)
+                .filter(|a| !kind_native(&w.cfg, *a) && !dead(&w.cfg, *a))
+                .map(|a| {
+                    let want = ioffers.iter().find(|o| o.0 == a).map(|o| o.1).unwrap_or(0);
+                    (w.token[a].clone().unwrap().to_string(), itarget.to_string(), Uint128::new(want))
+                })
+                .collect();
+            let imsg: CosmosMsg = w.wasm_exec(inner, w.funds_of(ioffers)).into();
+            let puppet = w.addr[MALLORY].clone();
+            let tok = w.token[3].clone().unwrap();
+            w.app.execute_contract(Addr::unchecked("owner"), puppet.clone(), &hostile::PuppetMsg::Reset {}, &[]).unwrap();
+            w.app
+                .wasm_sudo(
+                    tok,
+                    &hostile::TokenSudo::Arm {
+                        trigger: *trig,
+                        helper: w.addr[HELPER].to_string(),
+                        puppet: puppet.to_string(),
+                        inner: to_json_binary(&hostile::PuppetMsg::Inner { allow, msg: imsg, catch: *catch }).unwrap(),
+                    },
+                )
+                .unwrap();
+        }
         // a fresh pre-state (the epoch may have changed what the queries answer; storage, positions and balances
         // are as the last observation has them)
         let pre = w.observe_from(Some(&w.prev));
         // weight oracle: the weight in effect for an epoch is the live address weight before the first
         // operation of that epoch (epochs without operations inherit it)
-        if op.epoch > w.obs_epoch && op.epoch - w.obs_epoch <= ORACLE_SPAN && pre.aw.len() == 5 {
+        if op.epoch > w.obs_epoch && op.epoch - w.obs_epoch <= ORACLE_SPAN && pre.aw.len() == NACT {
             for e in w.obs_epoch + 1..=op.epoch {
-                for i in 1..=5usize {
+                for i in 1..=NACT {
                     w.eff_w.insert((i, e), pre.aw[i - 1]);
                 }
             }
@@ -1103,79 +1426,40 @@ impl Incentive {
         if let Some(g) = pre.snap {
             w.snap_seen.insert(pre.epoch, g);
         }
-        let quoted = if matches!(op.k, OpK::Claim) { Some(w.q_rewards(&sender)) } else { None };
-        let recv_s = |r: &Option<usize>| r.map(|i| ACCTS[i].to_string());
-        let infos: Vec<AssetInfo> = (0..NA).map(|a| w.info(a)).collect();
+        let quoted = if matches!(eff_k, OpK::Claim) { Some(w.q_rewards(&sender)) } else { None };
         let out: Outcome<()> = {
+            let msg: CosmosMsg = w.wasm_exec(eff_k, funds).into();
             let app = &mut w.app;
-            let pair = w.addr[8].to_string();
-            guarded(|| {
-                let r = match &op.k {
-                    OpK::OpenPos { amount, dur, recv } => app.execute_contract(
-                        sender.clone(),
-                        target.clone(),
-                        &im::ExecuteMsg::OpenPosition { amount: (*amount).into(), unbonding_duration: *dur, receiver: recv_s(recv) },
-                        &funds,
-                    ),
-                    OpK::ExpandPos { amount, dur, recv } => app.execute_contract(
-                        sender.clone(),
-                        target.clone(),
-                        &im::ExecuteMsg::ExpandPosition { amount: (*amount).into(), unbonding_duration: *dur, receiver: recv_s(recv) },
-                        &funds,
-                    ),
-                    OpK::ClosePos { dur } => {
-                        app.execute_contract(sender.clone(), target.clone(), &im::ExecuteMsg::ClosePosition { unbonding_duration: *dur }, &funds)
-                    }
-                    OpK::Withdraw => app.execute_contract(sender.clone(), target.clone(), &im::ExecuteMsg::Withdraw {}, &funds),
-                    OpK::Claim => app.execute_contract(sender.clone(), target.clone(), &im::ExecuteMsg::Claim {}, &funds),
-                    OpK::Snapshot => {
-                        app.execute_contract(sender.clone(), target.clone(), &im::ExecuteMsg::TakeGlobalWeightSnapshot {}, &funds)
-                    }
-                    OpK::OpenFlow { asset, amount, start, end } => app.execute_contract(
-                        sender.clone(),
-                        target.clone(),
-                        &im::ExecuteMsg::OpenFlow {
-                            start_epoch: *start,
-                            end_epoch: *end,
-                            curve: None,
-                            flow_asset: Asset { info: infos[*asset].clone(), amount: (*amount).into() },
-                            flow_label: None,
-                        },
-                        &funds,
-                    ),
-                    OpK::ExpandFlow { id, asset, amount, end } => app.execute_contract(
-                        sender.clone(),
-                        target.clone(),
-                        &im::ExecuteMsg::ExpandFlow {
-                            flow_identifier: im::FlowIdentifier::Id(*id),
-                            end_epoch: *end,
-                            flow_asset: Asset { info: infos[*asset].clone(), amount: (*amount).into() },
-                        },
-                        &funds,
-                    ),
-                    OpK::CloseFlow { id } => app.execute_contract(
-                        sender.clone(),
-                        target.clone(),
-                        &im::ExecuteMsg::CloseFlow { flow_identifier: im::FlowIdentifier::Id(*id) },
-                        &funds,
-                    ),
-                    OpK::HelperDeposit { x0, x1, a0, a1, dur } => app.execute_contract(
-                        sender.clone(),
-                        target.clone(),
-                        &hm::ExecuteMsg::Deposit {
-                            pair_address: pair.clone(),
-                            assets: [
-                                Asset { info: infos[*x0].clone(), amount: (*a0).into() },
-                                Asset { info: infos[*x1].clone(), amount: (*a1).into() },
-                            ],
-                            slippage_tolerance: None,
-                            unbonding_duration: *dur,
-                        },
-                        &funds,
-                    ),
-                };
-                r.map(|_| ()).map_err(|e| e.root_cause().to_string())
-            })
+            guarded(|| app.execute(sender.clone(), msg).map(|_| ()).map_err(|e| e.root_cause().to_string()))
+        };
+        // what became of the armed hook: not triggered / nested message went through / refused and caught
+        let fired: Option<u8> = if hook.is_some() {
+            let tok = w.token[3].clone().unwrap();
+            let hit = w
+                .app
+                .wrap()
+                .query_wasm_raw(&tok, b"hostile_fired".to_vec())
+                .unwrap()
+                .map(|v| cosmwasm_std::from_json::<bool>(&v).unwrap())
+                .unwrap_or(false);
+            let last = w
+                .app
+                .wrap()
+                .query_wasm_raw(&w.addr[MALLORY], b"puppet_last".to_vec())
+                .unwrap()
+                .map(|v| cosmwasm_std::from_json::<Option<bool>>(&v).unwrap())
+                .unwrap_or(None);
+            w.app.wasm_sudo(tok, &hostile::TokenSudo::Disarm {}).unwrap();
+            match (&out, hit, last) {
+                (Outcome::Ok(_), false, _) => Some(0),
+                (Outcome::Ok(_), true, Some(true)) => Some(1),
+                (Outcome::Ok(_), true, Some(false)) => Some(2),
+                // fired, but the nested message left no record although the transaction went through
+                (Outcome::Ok(_), true, None) => Some(9),
+                _ => None,
+            }
+        } else {
+            None
         };
         let (tag, ok) = match &out {
             Outcome::Ok(_) => ("ok", true),
@@ -1189,6 +1473,54 @@ impl Incentive {
         };
         let post = w.observe();
         let cfg = w.cfg.clone();
+        // from here on `op` is the plain op the transaction is judged / book-kept as: a re-entrant transaction whose
+        // nested message did not go through (not triggered, or refused and caught) is the plain outer op; one whose
+        // nested message went through is book-kept as mallory's nested op (flow resets, claims: the outer op is a
+        // helper deposit, which needs none) and judged by `monitors_reenter`
+        let orig = op;
+        let eff: Op = match (&orig.k, fired) {
+            (OpK::Reenter { inner, ioffers, .. }, Some(1)) => {
+                Op { epoch: orig.epoch, time: orig.time, sender: MALLORY, k: inner.as_ref().clone(), offers: ioffers.clone() }
+            }
+            (OpK::Reenter { outer, .. }, _) => {
+                Op { epoch: orig.epoch, time: orig.time, sender: orig.sender, k: outer.as_ref().clone(), offers: orig.offers.clone() }
+            }
+            _ => orig.clone(),
+        };
+        let op = &eff;
+        if let OpK::Reenter { trig, catch, inner, outer, .. } = &orig.k {
+            let name = |k: &OpK| -> &'static str {
+                match k {
+                    OpK::OpenPos { .. } => "open_position",
+                    OpK::ExpandPos { .. } => "expand_position",
+                    OpK::ClosePos { .. } => "close_position",
+                    OpK::Withdraw => "withdraw",
+                    OpK::Claim => "claim",
+                    OpK::Snapshot => "snapshot",
+                    OpK::OpenFlow { .. } => "open_flow",
+                    OpK::ExpandFlow { .. } => "expand_flow",
+                    OpK::CloseFlow { .. } => "close_flow",
+                    OpK::HelperDeposit { x0: 1, x1: 3, .. } => "helper_deposit",
+                    OpK::HelperDeposit { .. } => "helper_deposit_as",
+                    OpK::Reenter { .. } => "reenter",
+                }
+            };
+            let f = match fired {
+                Some(0) => "not_triggered",
+                Some(1) => "nested_went_through",
+                Some(2) => "nested_refused_and_caught",
+                Some(_) => "fired_without_record",
+                None => "transaction_failed",
+            };
+            mon.stat(&format!("reenter_t{trig}_{}_{f}", if *catch { "catch" } else { "plain" }));
+            mon.stat(&format!("reenter_inner_{}_{f}", name(inner)));
+            mon.stat(&format!("reenter_outer_{}_{f}", name(outer)));
+            if let (OpK::HelperDeposit { dur: di, .. }, OpK::HelperDeposit { dur: d, .. }, Some(1)) = (inner.as_ref(), outer.as_ref(), fired) {
+                mon.stat(if orig.sender == MALLORY { "reenter_nested_deposit_same_user" } else { "reenter_nested_deposit_other_user" });
+                mon.stat(if di == d { "reenter_nested_deposit_same_duration" } else { "reenter_nested_deposit_other_duration" });
+            }
+            mon.check("C11", "hook_outcome_recorded", fired != Some(9), || "the hostile token fired but its nested message left no record although the transaction went through".into());
+        }
         // ops that name an asset in the wrong kind (statistics: how often, how paid, how answered)
         {
             let paid_in = |a: usize| op.offers.iter().any(|o| o.0 == a);
@@ -1233,7 +1565,13 @@ impl Incentive {
         if let Some(g) = post.snap {
             w.snap_seen.insert(post.epoch, g);
         }
-        let line = render(tag, &post);
+        let mut line = render(tag, &post);
+        if matches!(orig.k, OpK::Reenter { .. }) {
+            line.push_str(&match fired {
+                Some(f) => format!(" fired={f}"),
+                None => " fired=-".to_string(),
+            });
+        }
         // ---------------- bookkeeping used to tag / attribute ----------------
         let mut expand_tag = String::new();
         if let (true, OpK::ExpandFlow { id, asset, .. }) = (ok, &op.k) {
@@ -1389,7 +1727,12 @@ impl Incentive {
                 )
             });
         }
-        Self::monitors_step(&cfg, op, ok, &pre, &post, quoted, last_claim, &expand_tag, mon);
+        if fired == Some(1) {
+            Self::monitors_reenter(&cfg, orig, &pre, &post, mon);
+        } else {
+            Self::monitors_step(&cfg, op, ok, &pre, &post, quoted, last_claim, &expand_tag, mon);
+        }
+        Self::monitor_closed_world(&pre, &post, mon);
         line
     }
 
@@ -1435,7 +1778,7 @@ impl Incentive {
         };
         // C11: whenever the recorded positions grow, the contract received exactly that much LP and
         // the sender (or, through the helper, the pair) paid it
-        let grow: i128 = (0..5).map(|i| tot(post, i) as i128 - tot(pre, i) as i128).sum();
+        let grow: i128 = (0..NACT).map(|i| tot(post, i) as i128 - tot(pre, i) as i128).sum();
         let lp_flow_delta = flow_liab(post, 0) as i128 - flow_liab(pre, 0) as i128;
         if grow > 0 {
             mon.check("C11", "position_only_on_receipt", dbal(0, 0) - lp_flow_delta == grow, || {
@@ -1454,7 +1797,7 @@ impl Incentive {
                     format!("{:?}: contract LP {:+}, sender LP {:+}", op.k, dbal(0, 0), dbal(u, 0))
                 });
                 // nobody else's positions move
-                for i in 0..5 {
+                for i in 0..NACT {
                     if i != r {
                         mon.check("C11", "others_untouched", pre.pos[i] == post.pos[i], || format!("{:?} changed positions of {}", op.k, ACTORS[i]));
                     }
@@ -1474,8 +1817,8 @@ impl Incentive {
                     && p1.1.iter().map(|x| x.0).sum::<u128>() == p0.1.iter().map(|x| x.0).sum::<u128>() + closed_amt.unwrap_or(0)
                     && p1.1.iter().any(|x| Some(x.0) == closed_amt && x.1 == op.time + *dur);
                 mon.check("C11", "close_moves_whole_position", good, || format!("close {dur}: {:?} -> {:?}", p0, p1));
-                mon.check("C11", "close_moves_no_tokens", (0..9).all(|a| dbal(a, 0) == 0), || "close_position moved LP tokens".into());
-                for i in 0..5 {
+                mon.check("C11", "close_moves_no_tokens", (0..NACC).all(|a| dbal(a, 0) == 0), || "close_position moved LP tokens".into());
+                for i in 0..NACT {
                     if i != ai {
                         mon.check("C11", "others_untouched", pre.pos[i] == post.pos[i], || format!("close changed positions of {}", ACTORS[i]));
                     }
@@ -1488,7 +1831,7 @@ impl Incentive {
                 mon.check("C11", "withdraw_exact", dbal(u, 0) == owed as i128 && dbal(0, 0) == -(owed as i128) && p1.1.is_empty() && p1.0 == p0.0, || {
                     format!("withdraw: closed positions {:?}, user LP {:+}, contract LP {:+}, closed after {:?}", p0.1, dbal(u, 0), dbal(0, 0), p1.1)
                 });
-                for i in 0..5 {
+                for i in 0..NACT {
                     if i != ai {
                         mon.check("C11", "others_untouched", pre.pos[i] == post.pos[i] && dbal(i + 1, 0) == 0, || {
                             format!("withdraw by {} changed positions/LP of {}", ACTORS[ai], ACTORS[i])
@@ -1556,8 +1899,8 @@ impl Incentive {
                     format!("helper deposit lp {lp}: position {before} -> {after}, contract LP {:+}", dbal(0, 0))
                 });
                 let off1 = op.offers.iter().find(|o| o.0 == 1).map(|o| o.1).unwrap_or(0) as i128;
-                mon.check("C11", "helper_forwards_assets", dbal(u, 1) == -off1 && dbal(u, 3) == -(*a1 as i128) && dbal(8, 1) == off1 && dbal(8, 3) == *a1 as i128, || {
-                    format!("helper deposit: user uwhale {:+} cw20A {:+}; pair uwhale {:+} cw20A {:+}", dbal(u, 1), dbal(u, 3), dbal(8, 1), dbal(8, 3))
+                mon.check("C11", "helper_forwards_assets", dbal(u, 1) == -off1 && dbal(u, 3) == -(*a1 as i128) && dbal(PAIR, 1) == off1 && dbal(PAIR, 3) == *a1 as i128, || {
+                    format!("helper deposit: user uwhale {:+} cw20A {:+}; pair uwhale {:+} cw20A {:+}", dbal(u, 1), dbal(u, 3), dbal(PAIR, 1), dbal(PAIR, 3))
                 });
                 mon.stat("helper_deposit_ok");
             }
@@ -1571,8 +1914,8 @@ impl Incentive {
                     mon.check_tag("C12", "open_exact", &format!("flow{}fee{}", a, cfg.fee_asset), dbal(0, a) == funded && f.asset == a && f.claimed == 0, || {
                         format!("open_flow asset {a}: funded {funded} but contract received {:+}", dbal(0, a))
                     });
-                    mon.check("C12", "open_fee_to_collector", dbal(6, cfg.fee_asset) == fee, || {
-                        format!("fee {} of asset {}: collector got {:+}", fee, cfg.fee_asset, dbal(6, cfg.fee_asset))
+                    mon.check("C12", "open_fee_to_collector", dbal(COLLECTOR, cfg.fee_asset) == fee, || {
+                        format!("fee {} of asset {}: collector got {:+}", fee, cfg.fee_asset, dbal(COLLECTOR, cfg.fee_asset))
                     });
                     let paid_expected = if a == cfg.fee_asset { -(funded + fee) } else { -funded };
                     mon.check("C12", "open_creator_pays_exact", dbal(u, a) == paid_expected && f.creator == ACCTS[u], || {
@@ -1589,13 +1932,13 @@ impl Incentive {
                         mon.check(
                             "C11",
                             "open_flow_refunds_overpaid_fee",
-                            dbal(u, fa) == -(fee + flow_part) && dbal(6, fa) == fee && dbal(0, fa) == flow_part,
+                            dbal(u, fa) == -(fee + flow_part) && dbal(COLLECTOR, fa) == fee && dbal(0, fa) == flow_part,
                             || {
                                 format!(
                                     "open_flow in asset {a}, fee {fee} of native asset {fa}, {paid} attached: sender {:+} (expected {:+}), collector {:+} (expected {:+}), contract {:+} (expected {:+})",
                                     dbal(u, fa),
                                     -(fee + flow_part),
-                                    dbal(6, fa),
+                                    dbal(COLLECTOR, fa),
                                     fee,
                                     dbal(0, fa),
                                     flow_part
@@ -1615,12 +1958,12 @@ impl Incentive {
                     }
                 }
                 // whatever is named, only the named asset, the fee asset and what was attached can move
-                let quiet = (0..NA).filter(|b| *b != *asset && *b != cfg.fee_asset && op.offers.iter().all(|o| o.0 != *b)).all(|b| (0..9).all(|acct| dbal(acct, b) == 0));
+                let quiet = (0..NA).filter(|b| *b != *asset && *b != cfg.fee_asset && op.offers.iter().all(|o| o.0 != *b)).all(|b| (0..NACC).all(|acct| dbal(acct, b) == 0));
                 mon.check("C12", "flow_op_moves_only_named_assets", quiet, || format!("open_flow in asset {asset} moved balances of an asset that was neither named, nor the fee asset, nor offered"));
                 // coins attached in an asset that is neither the flow asset nor the fee asset stay with the contract
                 // (a donation), they are never handed to anybody else
                 for o in op.offers.iter().filter(|o| o.0 != *asset && o.0 != cfg.fee_asset) {
-                    mon.check("C12", "flow_op_moves_only_named_assets", (1..9).all(|acct| acct == u || dbal(acct, o.0) == 0), || {
+                    mon.check("C12", "flow_op_moves_only_named_assets", (1..NACC).all(|acct| acct == u || dbal(acct, o.0) == 0), || {
                         format!("open_flow in asset {asset}: asset {} (offered, not named) reached a third party", o.0)
                     });
                 }
@@ -1644,7 +1987,7 @@ impl Incentive {
                     mon.check("C12", "expand_names_the_flow_asset", f0.asset == *asset && f1.asset == f0.asset, || {
                         format!("flow {id} is denominated in asset {}; an expansion naming asset {asset} was accepted (flow asset afterwards {})", f0.asset, f1.asset)
                     });
-                    let quiet = (0..NA).filter(|b| *b != fa && op.offers.iter().all(|o| o.0 != *b)).all(|b| (0..9).all(|acct| dbal(acct, b) == 0));
+                    let quiet = (0..NA).filter(|b| *b != fa && op.offers.iter().all(|o| o.0 != *b)).all(|b| (0..NACC).all(|acct| dbal(acct, b) == 0));
                     mon.check("C12", "flow_op_moves_only_named_assets", quiet, || format!("expand_flow {id} moved balances of an asset that is neither the flow's nor offered"));
                     mon.stat(&format!("expand_flow_ok_{tag}"));
                     if f0.asset >= NB {
@@ -1774,11 +2117,156 @@ impl Incentive {
                     format!("explicit snapshot: {:?} vs live global {} (existing {:?})", post.snap, pre.gw, pre.snap)
                 });
             }
+            // never reached: a re-entrant transaction is judged as the plain op it amounts to, or by `monitors_reenter`
+            OpK::Reenter { .. } => {}
         }
         // C13: the snapshot of an epoch, once taken, never changes within the epoch
         if let Some(s0) = pre.snap {
             mon.check("C13", "snapshot_immutable_in_epoch", post.snap == Some(s0), || format!("snapshot of epoch {} changed {} -> {:?}", post.epoch, s0, post.snap));
         }
+    }
+
+    /// no transaction creates or destroys tokens: the ten observed accounts are a closed world (the pair hands out
+    /// LP from a pre-funded balance), so per asset the balances add up to what they added up to before
+    fn monitor_closed_world(pre: &Obs, post: &Obs, mon: &mut Monitor) {
+        if pre.bal.len() != NACC || post.bal.len() != NACC {
+            return;
+        }
+        for a in 0..NA {
+            let s0 = pre.bal.iter().fold(0u128, |x, b| x.wrapping_add(b[a]));
+            let s1 = post.bal.iter().fold(0u128, |x, b| x.wrapping_add(b[a]));
+            mon.check("C11", "conservation_across_transaction", s0 == s1, || {
+                format!("asset {a}: the balances of the observed accounts added up to {s0} before and {s1} after the transaction")
+            });
+        }
+    }
+
+    /// a re-entrant transaction whose nested message WENT THROUGH (`fired=1`; the outer op is a helper deposit, the
+    /// only path on which the hostile pool token is triggered): judged as what the property says of the two
+    /// operations it consists of -- mallory's nested op, then the depositor's deposit -- on the positions and
+    /// balances before and after the transaction (never on the model): the LP a deposit minted is staked, all of
+    /// it, for the depositor under the depositor's duration.
+    /// OBSERVATION (not a clause of C11, recorded and counted, never failed): when the nested op is itself a helper
+    /// `Deposit` that went through, the helper's `TEMP_STATE` item was overwritten by it and the outer reply stakes
+    /// the OUTER depositor's LP for the NESTED sender under the NESTED duration (`frontend_helper/src/contract.rs`
+    /// saves the item per `Deposit`, `reply/deposit_pair.rs` loads whatever is there). C11 does not say whose
+    /// position the outer LP must go to in that case, so BOTH attributions are accepted -- the depositor's own, or
+    /// the one the code documents (statistic `nested_deposit_misattributed_outer_lp`) --; everything else stays
+    /// strict: every unit of LP minted is staked in one of the two, nothing stays in the helper.
+    fn monitors_reenter(_cfg: &Cfg, orig: &Op, pre: &Obs, post: &Obs, mon: &mut Monitor) {
+        let OpK::Reenter { inner, ioffers, outer, .. } = &orig.k else { return };
+        let OpK::HelperDeposit { a0, a1, dur, .. } = outer.as_ref() else {
+            mon.check("C11", "hook_fires_on_the_helper_path_only", false, || format!("the hostile token fired inside {:?}", outer));
+            return;
+        };
+        let dbal = |acct: usize, a: usize| -> i128 { post.bal[acct][a] as i128 - pre.bal[acct][a] as i128 };
+        let x = orig.sender - 1; // depositor (actor index)
+        let m = MALLORY - 1;
+        // expected positions (amounts): the state before, mallory's nested op, then the deposit
+        let mut open: Vec<Vec<(u64, u128)>> = vec![];
+        let mut closed: Vec<Vec<(u128, u64)>> = vec![];
+        for p in pre.pos.iter() {
+            match p {
+                Q::Ok((o, c)) => {
+                    open.push(o.iter().map(|t| (t.0, t.1)).collect());
+                    closed.push(c.clone());
+                }
+                _ => return,
+            }
+        }
+        let credit = |open: &mut Vec<Vec<(u64, u128)>>, who: usize, d: u64, amt: u128| match open[who].iter_mut().find(|t| t.0 == d) {
+            Some(t) => t.1 = t.1.saturating_add(amt),
+            None => open[who].push((d, amt)),
+        };
+        match inner.as_ref() {
+            OpK::OpenPos { amount, dur, recv } | OpK::ExpandPos { amount, dur, recv } => credit(&mut open, recv.unwrap_or(MALLORY) - 1, *dur, *amount),
+            OpK::ClosePos { dur } => {
+                if let Some(i) = open[m].iter().position(|t| t.0 == *dur) {
+                    let t = open[m].remove(i);
+                    closed[m].push((t.1, orig.time + *dur));
+                }
+            }
+            OpK::Withdraw => closed[m].clear(),
+            OpK::HelperDeposit { a0, a1, dur, .. } => credit(&mut open, m, *dur, a0.saturating_add(*a1)),
+            _ => {}
+        }
+        let lp = a0.saturating_add(*a1);
+        // where the reply finds receiver and duration: in the `TEMP_STATE` the last `Deposit` saved
+        let (recv, rdur) = match inner.as_ref() {
+            OpK::HelperDeposit { dur: di, .. } => (m, *di),
+            _ => (x, *dur),
+        };
+        let compare = |open: &Vec<Vec<(u64, u128)>>, what: &mut String| -> bool {
+            let mut good = true;
+            for i in 0..NACT {
+                let (mut po, mut pc) = match &post.pos[i] {
+                    Q::Ok((o, c)) => (o.iter().map(|t| (t.0, t.1)).collect::<Vec<_>>(), c.clone()),
+                    _ => (vec![], vec![]),
+                };
+                po.sort();
+                pc.sort();
+                let mut eo = open[i].clone();
+                let mut ec = closed[i].clone();
+                eo.sort();
+                ec.sort();
+                if po != eo || pc != ec {
+                    good = false;
+                    what.push_str(&format!(" {}: positions {:?} / {:?}, expected {:?} / {:?};", ACTORS[i], po, pc, eo, ec));
+                }
+            }
+            good
+        };
+        // the outer LP staked for the depositor under the depositor's duration ...
+        let mut own = open.clone();
+        credit(&mut own, x, *dur, lp);
+        let mut what = String::new();
+        let mut good = compare(&own, &mut what);
+        // ... or, after a nested deposit, for the receiver the overwritten `TEMP_STATE` names (the observation)
+        if !good && (recv, rdur) != (x, *dur) {
+            let mut doc = open.clone();
+            credit(&mut doc, recv, rdur, lp);
+            let mut what2 = String::new();
+            if compare(&doc, &mut what2) {
+                good = true;
+                mon.stat("nested_deposit_misattributed_outer_lp");
+            } else {
+                what.push_str(" | or, credited to the nested sender:");
+                what.push_str(&what2);
+            }
+        }
+        mon.check("C11", "helper_position_for_depositor", good, || {
+            format!(
+                "deposit of {lp} LP by {} for duration {dur} with mallory's {:?} nested into it: the LP minted must be staked in full for the depositor{};{what}",
+                ACTORS[x],
+                inner,
+                if (recv, rdur) != (x, *dur) { format!(" (or, the reply reading the nested deposit's TEMP_STATE, for {} under duration {rdur})", ACTORS[recv]) } else { String::new() }
+            )
+        });
+        // the deposited assets went to the pair in full (checked when the nested op is a deposit too: other nested
+        // ops may move the pool assets as fees, flow funds or rewards)
+        if let OpK::HelperDeposit { a1: ia1, .. } = inner.as_ref() {
+            let off1 = orig.offers.iter().find(|o| o.0 == 1).map(|o| o.1).unwrap_or(0) as i128;
+            let ioff1 = ioffers.iter().find(|o| o.0 == 1).map(|o| o.1).unwrap_or(0) as i128;
+            let mut exp1 = [0i128; NACC];
+            let mut exp3 = [0i128; NACC];
+            exp1[orig.sender] -= off1;
+            exp1[MALLORY] -= ioff1;
+            exp1[PAIR] += off1 + ioff1;
+            exp3[orig.sender] -= *a1 as i128;
+            exp3[MALLORY] -= *ia1 as i128;
+            exp3[PAIR] += *a1 as i128 + *ia1 as i128;
+            let okb = (0..NACC).all(|acct| dbal(acct, 1) == exp1[acct] && dbal(acct, 3) == exp3[acct]);
+            mon.check("C11", "helper_forwards_assets", okb, || {
+                format!(
+                    "nested deposits: uwhale deltas {:?} (expected {:?}), cw20A deltas {:?} (expected {:?})",
+                    (0..NACC).map(|acct| dbal(acct, 1)).collect::<Vec<_>>(),
+                    exp1,
+                    (0..NACC).map(|acct| dbal(acct, 3)).collect::<Vec<_>>(),
+                    exp3
+                )
+            });
+        }
+        mon.stat("reenter_judged_as_two_operations");
     }
 
     // ------------------------------------------------------------------ generator
@@ -1823,8 +2311,9 @@ impl Incentive {
         self.g_new_epoch = false;
         self.g_script.clear();
         // which scripted scenarios this case runs (the long-idle one costs ~150 ops: one case in five)
-        // [same-second unlocks, long idle, long per-address history, many flows and claims, look-alike assets]
-        self.g_scen_done = [!rng.chance(1, 2), !rng.chance(1, 5), !rng.chance(1, 7), !rng.chance(1, 10), !rng.chance(1, 3)];
+        // [same-second unlocks, long idle, long per-address history, many flows and claims, look-alike assets,
+        //  re-entrant helper deposits]
+        self.g_scen_done = [!rng.chance(1, 2), !rng.chance(1, 5), !rng.chance(1, 7), !rng.chance(1, 10), !rng.chance(1, 3), !rng.chance(1, 3)];
         format!(
             "init incentive lp={} fee={} feeamt={} maxflows={} buffer={} mindur={} maxdur={} e0={}",
             if lp_native { "native" } else { "cw20" },
@@ -1894,7 +2383,58 @@ impl Incentive {
         self.g_scen_done[which] = true;
         let u = ACCTS[1 + rng.below(3) as usize];
         let mut sc: Vec<(u64, u64, String)> = vec![];
-        if which == 0 {
+        if which == 5 {
+            // RE-ENTRANT helper deposits: a plain deposit, then deposits with a deposit of mallory's nested into them
+            // (from inside the helper's pull / the pair's pull, plainly / caught, same / other duration, by another
+            // user / by mallory itself), a LATER plain deposit by a third user, mallory closing and withdrawing what
+            // it was credited, and deposits with an incentive operation nested into them
+            let lo = cfg.min_dur.max(MIN_D);
+            let hi = cfg.max_dur.min(MAX_D);
+            if lo >= hi {
+                return false;
+            }
+            let d = if rng.chance(1, 2) { lo } else { rng.range(lo, hi) };
+            let d2 = if rng.chance(1, 2) { d } else { rng.range(lo, hi) };
+            let dep = |rng: &mut Rng, d: u64| -> String {
+                let (a0, a1) = (rng.log_uniform(50), rng.log_uniform(50));
+                format!("helper_deposit {a0} {a1} {d} 1:{a0} 3:{a1}")
+            };
+            let users = ["alice", "bob", "carol", "mallory"];
+            let trig = |rng: &mut Rng| *rng.pick(&["t1", "t1", "t2", "t2", "t3", "t4"]);
+            let mode = |rng: &mut Rng| *rng.pick(&["plain", "catch"]);
+            sc.push((0, 10, format!("{u} {}", dep(rng, d))));
+            for _ in 0..rng.range(1, 3) {
+                let x = *rng.pick(&users);
+                let dn = if rng.chance(1, 2) { d } else { d2 };
+                let nested = dep(rng, dn);
+                let outer = dep(rng, d);
+                sc.push((0, 10, format!("{x} reenter {} {} {nested} -- {outer}", trig(rng), mode(rng))));
+                // the next depositor
+                let y = *rng.pick(&users[..3]);
+                let dy = if rng.chance(1, 2) { d } else { d2 };
+                sc.push((0, 10, format!("{y} {}", dep(rng, dy))));
+            }
+            // mallory takes out what it was credited
+            sc.push((0, 10, format!("mallory close_position {d}")));
+            if d2 != d {
+                sc.push((0, 10, format!("mallory close_position {d2}")));
+            }
+            sc.push((rng.below(2), hi + 10, "mallory withdraw".to_string()));
+            // incentive operations nested into a deposit
+            let x = *rng.pick(&users);
+            let amt = 1 + rng.log_uniform(40);
+            let inner = match rng.below(6) {
+                0 => format!("open_position {amt} {d2} {x} 0:{amt}"),
+                1 => format!("expand_position {amt} {d} {x} 0:{amt}"),
+                2 => format!("close_position {d}"),
+                3 => "withdraw".to_string(),
+                4 => "claim".to_string(),
+                _ => format!("open_position {amt} {d} - 0:{amt}"),
+            };
+            sc.push((0, 10, format!("{x} reenter {} {} {inner} -- {}", trig(rng), mode(rng), dep(rng, d))));
+            sc.push((0, 10, format!("{u} close_position {d}")));
+            sc.push((0, hi + 10, format!("{u} withdraw")));
+        } else if which == 0 {
             // two closed positions of ONE address that unlock at the same second: (a) close, re-open the
             // same duration and close again within one block; (b) durations d+x and d closed x seconds apart
             let lo = cfg.min_dur.max(MIN_D);
@@ -2099,7 +2639,125 @@ impl Incentive {
         true
     }
 
+    /// what mallory sends from inside the hostile token's transfer: `<op> <args…> [offers]`
+    fn gen_inner(&self, rng: &mut Rng, outer_dur: u64, outer_sender: &str) -> String {
+        let w = self.w.as_ref().unwrap();
+        let cfg = w.cfg.clone();
+        let prev = &w.prev;
+        let open_of = |i: usize| -> Vec<(u64, u128, u128)> {
+            match prev.pos.get(i - 1) {
+                Some(Q::Ok(p)) => p.0.clone(),
+                _ => vec![],
+            }
+        };
+        let mine = open_of(MALLORY);
+        let e = self.g_epoch;
+        match rng.below(100) {
+            0..=39 => {
+                // a deposit of its own through the same helper
+                let d = match rng.below(4) {
+                    0 | 1 => outer_dur,
+                    2 if !mine.is_empty() => rng.pick(&mine).0,
+                    _ => Self::gen_dur(rng, &cfg),
+                };
+                let a0 = if rng.chance(1, 8) { 0 } else { rng.log_uniform(60) };
+                let a1 = if rng.chance(1, 12) { 0 } else { rng.log_uniform(60) };
+                let o0 = if rng.chance(1, 14) { a0 + 1 } else { a0 };
+                let o1 = if rng.chance(1, 14) { a1 + 1 } else { a1 };
+                let mut offs = String::new();
+                if o0 > 0 {
+                    offs.push_str(&format!(" 1:{o0}"));
+                }
+                if o1 > 0 {
+                    offs.push_str(&format!(" 3:{o1}"));
+                }
+                format!("helper_deposit {a0} {a1} {d}{offs}")
+            }
+            40..=54 => {
+                let amt = Self::gen_amount(rng);
+                let d = if rng.chance(1, 2) { outer_dur } else { Self::gen_dur(rng, &cfg) };
+                let recv = match rng.below(4) {
+                    0 => outer_sender,
+                    1 => ACCTS[1 + rng.below(NACT as u64) as usize],
+                    _ => "-",
+                };
+                let off = if rng.chance(1, 10) { amt + 1 } else { amt };
+                format!("open_position {amt} {d} {recv}{}", if off > 0 { format!(" 0:{off}") } else { String::new() })
+            }
+            55..=64 => {
+                let (recv, ops) = if rng.chance(1, 2) {
+                    (outer_sender, open_of(actor_idx(outer_sender).unwrap_or(1)))
+                } else {
+                    ("-", mine.clone())
+                };
+                let d = if !ops.is_empty() && rng.chance(4, 5) { rng.pick(&ops).0 } else { outer_dur };
+                let amt = Self::gen_amount(rng);
+                format!("expand_position {amt} {d} {recv}{}", if amt > 0 { format!(" 0:{amt}") } else { String::new() })
+            }
+            65..=72 => {
+                let d = if !mine.is_empty() && rng.chance(4, 5) { rng.pick(&mine).0 } else { outer_dur };
+                format!("close_position {d}")
+            }
+            73..=79 => "withdraw".to_string(),
+            80..=87 => "claim".to_string(),
+            88..=90 => "snapshot".to_string(),
+            91..=93 => {
+                let asset = *rng.pick(&[0usize, 1, 2, 3, 4]);
+                let extra = if asset == cfg.fee_asset { cfg.fee_amt } else { 0 };
+                let f = 1000 + rng.log_uniform(50) + extra;
+                let body = Self::flow_body(&cfg, "mallory", asset, f, e, e + rng.range(3, 30));
+                body.strip_prefix("mallory ").unwrap_or(&body).to_string()
+            }
+            94..=95 => match prev.flows.first() {
+                Some(f) => {
+                    let x = 1 + rng.log_uniform(40);
+                    format!("expand_flow {} {} {x} - {}:{x}", f.id, f.asset.min(NA - 1), f.asset.min(NA - 1))
+                }
+                None => "claim".to_string(),
+            },
+            96..=97 => format!("close_flow {}", prev.flows.first().map(|f| f.id).unwrap_or(1)),
+            _ => {
+                let (a0, a1) = (rng.log_uniform(40), rng.log_uniform(40));
+                format!("helper_deposit_as 6 3 {a0} {a1} {outer_dur} 1:{a0} 3:{a1}")
+            }
+        }
+    }
+
+    /// the next op line: a plain one (`gen_plain`), or -- for half of the helper deposits and a few other ops -- the
+    /// same op sent while the hostile pool token is armed
     fn gen_op(&mut self, rng: &mut Rng) -> String {
+        let (line, scripted) = self.gen_plain(rng);
+        if scripted {
+            return line;
+        }
+        let toks: Vec<&str> = line.split_whitespace().collect();
+        if toks.len() < 4 {
+            return line;
+        }
+        let wrap = match toks[3] {
+            "helper_deposit" => rng.chance(1, 2),
+            "helper_deposit_as" => rng.chance(1, 4),
+            _ => rng.chance(1, 60),
+        };
+        if !wrap {
+            return line;
+        }
+        let outer_dur: u64 = if toks[3] == "helper_deposit" { toks.get(6).and_then(|t| t.parse().ok()).unwrap_or(MIN_D) } else { MIN_D };
+        let inner = self.gen_inner(rng, outer_dur, toks[2]);
+        let trig = *rng.pick(&["t1", "t1", "t1", "t1", "t2", "t2", "t2", "t2", "t3", "t4"]);
+        let mode = if rng.chance(1, 2) { "plain" } else { "catch" };
+        format!("{} {} {} reenter {trig} {mode} {inner} -- {}", toks[0], toks[1], toks[2], toks[3..].join(" "))
+    }
+
+    /// a plain op line; the flag says that it comes from a scripted scenario (emitted as it is)
+    fn gen_plain(&mut self, rng: &mut Rng) -> (String, bool) {
+        let line = self.gen_plain_line(rng);
+        let scripted = self.g_last_scripted;
+        (line, scripted)
+    }
+
+    fn gen_plain_line(&mut self, rng: &mut Rng) -> String {
+        self.g_last_scripted = true;
         // scripted scenario in progress
         if self.g_script.is_empty() && self.g_force_claim.is_none() && rng.chance(1, 12) {
             self.queue_scenario(rng);
@@ -2154,6 +2812,7 @@ impl Incentive {
                 }
             }
         }
+        self.g_last_scripted = false;
         if rng.chance(7, 20) {
             self.g_epoch += match rng.below(30) {
                 0 => 2,
@@ -2166,7 +2825,13 @@ impl Incentive {
         }
         let e = self.g_epoch;
         let t = self.g_time;
-        let actor = |rng: &mut Rng| -> usize { 1 + (if rng.chance(4, 5) { rng.below(3) } else { rng.below(5) }) as usize };
+        let actor = |rng: &mut Rng| -> usize {
+            if rng.chance(1, 14) {
+                MALLORY
+            } else {
+                1 + (if rng.chance(4, 5) { rng.below(3) } else { rng.below(5) }) as usize
+            }
+        };
         let lp_offer = |amt: u128, rng: &mut Rng| -> String {
             let off = match rng.below(14) {
                 0 => amt.saturating_sub(1),
@@ -2202,7 +2867,7 @@ impl Incentive {
         };
         let has_closed = |i: usize| -> bool { matches!(prev.pos.get(i - 1), Some(Q::Ok(p)) if !p.1.is_empty()) };
         let n_flows = prev.flows.len();
-        let total_open: usize = (1..=5).map(|i| open_of(i).len()).sum();
+        let total_open: usize = (1..=NACT).map(|i| open_of(i).len()).sum();
         for _ in 0..20 {
             let r = rng.below(100);
             // early in the case: build positions and flows
